@@ -100,6 +100,11 @@ CLAIMED = {
          "Every chain of up to 3 (4 thorough) constant rules was enumerated over install points and guard-drop positions, and random chains of 0-6 table-driven (partly stateful) rules installed through Net::rule, EnterGuard::rule and turmoil_net::rule, ended by drop / forget / mem::forget / alias guards, with UDP and TCP traffic including loopback and own-address packets: each non-loopback packet was decided by exactly the first non-Pass rule in installation order, no rule was consulted after a verdict or after its guard was dropped, no installed rule was skipped, loopback packets were never shown to a rule; inside the fixtures Deliver(d) datagrams arrived within [T_e+d, T_e+d+1 tick], equal deadlines kept emission order, zero-delay and Pass packets arrived in their evaluation tick, and dropped packets never arrived.",
          "The timing half is asserted for UDP datagrams inside the fixtures (tokio's paused timer is 1 ms granular); own-address traffic is treated as loopback only when no rule saw it (the docs promise folding for loopback only).",
          "DESIGN.md §6 C19"),
+ "C07": ("fault_enumeration",
+         "fault enumeration: a crash injected after EVERY prefix of every generated filesystem history (re-executed from scratch), plus crash-continue-crash cycles, driven directly (Fs::crash + IoUringHostState::crash) and inside a running Sim (Sim::crash + Sim::bounce, observed by the restarted software), checked against a two-level durability model",
+         "For every generated history (std shim, tokio shim and io_uring mixed; create, open, writes, set_len, sync_all, sync_data, io_uring fsync, sync_dir, renames, removes, directories; sync_probability 0 or 0.3, block_size none/2/3; two hosts) a crash was injected after each prefix and the whole path universe observed: an entry existed exactly when a durable parent directory's durable entry map contained it, contents equalled the last data-synced contents (or, with background sync / torn writes, lay in the enumerated admissible set), unsynced creates, writes, truncations, renames and removals were rolled back, synced data was never lost and never-written bytes never appeared; the host that did not crash kept its current view; the same held across 2-3 crash/continue cycles and when the crash was Sim::crash + Sim::bounce.",
+         "Only regular files and directories whose ancestors are all durable are asserted (dangling subtrees are unspecified by the crate's model); regions touched by C10 findings that are still known (F-C10-1, 2, 4, 10, 11) are tainted and counted; before the crash the full C10 lock-step oracle runs on every op.",
+         "DESIGN.md §6 C07"),
 }
 
 PENDING_REASON = "check not built yet in this round (planned, see DESIGN.md §6); not claimed until its check exists and has been shown silent on the unchanged tree"
